@@ -50,6 +50,10 @@ func (g *storeGenState) freshTime(target, typ, key string) int64 {
 		if g.r.Intn(8) == 0 {
 			t = g.tick()
 		}
+		if g.r.Intn(10) == 0 {
+			// instants at and before the Unix epoch are timestamps like any other
+			t = int64(g.r.Intn(7)-5) * int64(1+g.r.Intn(2000)) * 1e6
+		}
 		if !g.used[id][t] {
 			g.used[id][t] = true
 			return t
@@ -100,6 +104,9 @@ func (g *storeGenState) dataPoint(target string) sPoint {
 	if g.r.Intn(4) == 0 {
 		typ, key = g.collidingIdent()
 	}
+	if g.r.Intn(12) == 0 {
+		typ = "" // an untyped point is a point like any other
+	}
 	p := sPoint{Type: typ, Key: key, VBits: g.value(), Text: storeTexts[g.r.Intn(len(storeTexts))]}
 	p.Time = g.freshTime(target, typ, key)
 	if g.r.Intn(4) == 0 {
@@ -135,6 +142,14 @@ func (g *storeGenState) batch(target string, max int) []sPoint {
 			q.Time = g.freshTime(target, q.Type, q.Key)
 			ps = append(ps, q)
 		}
+	}
+	if g.r.Intn(8) == 0 {
+		// an untyped and a typed point with the same key in one batch: two identities, two rows
+		p := g.dataPoint(target)
+		q := g.dataPoint(target)
+		q.Type, q.Key = "", p.Key
+		q.Time = g.freshTime(target, q.Type, q.Key)
+		ps = append(ps, p, q)
 	}
 	g.r.Shuffle(len(ps), func(i, j int) { ps[i], ps[j] = ps[j], ps[i] })
 	return ps
